@@ -323,6 +323,7 @@ class Run:
         self.stats = {}
         self.prng = random.Random(1000003 * ctx.seed + 17)    # permutation experiments (independent of op generation)
         self.perm_reqs = []       # (model 'accepts' request, what SQLite said, context)
+        self.byproducts = []      # op-level crashes of Pony that are outside C16 (reported in the notes)
         self.all_explicit = all(not e['auto'] for e in spec['ents'])
 
     def count(self, k): self.stats[k] = self.stats.get(k, 0) + 1
@@ -495,8 +496,10 @@ class Run:
                         failed = 'flush'; break
                     except LookupError:
                         self.count('op-stale'); continue
-                    except (core.ConstraintError, core.CacheIndexError, core.OperationWithDeletedObjectError, core.UnrepeatableReadError, ValueError, core.TransactionError, RecursionError) as e:
-                        self.count('op-refused:' + type(e).__name__); failed = 'op'; break
+                    except (core.ConstraintError, core.CacheIndexError, core.OperationWithDeletedObjectError, core.UnrepeatableReadError, ValueError, core.TransactionError, RecursionError, AssertionError) as e:
+                        self.count('op-refused:' + type(e).__name__); failed = 'op'
+                        if isinstance(e, (AssertionError, RecursionError)): self.byproducts.append((type(e).__name__, self.hist + [done]))
+                        break
                     if ok is False: failed = 'flush'; break
                 if failed is None:
                     if self.flush_point('commit', None) is False: failed = 'flush'
@@ -642,6 +645,10 @@ def explore(ctx, strict, nhist):
         runs.append(r)
         tagp = 'strict:' if strict else ''
         for k, v in r.stats.items(): ctx.count(tagp + k, v)
+        for name, h in r.byproducts:
+            if not any(n.startswith('by-product (not C16): ' + name) for n in ctx.notes):
+                ctx.note('by-product (not C16): %s inside an object-level operation of Pony (session rolled back by the engine); spec=%s history=%s'
+                         % (name, json.dumps(spec), json.dumps(h)))
         ctx.case({'spec': spec, 'history': r.hist, 'strict': strict}, nontrivial=bool(r.records), kind='history' + ('-strict' if strict else ''))
         for rec in r.records:
             ctx.case(rec['request'], nontrivial=len([q for q in rec['request']['queue'] if q is not None]) > 1, kind='flush-point')
